@@ -950,22 +950,23 @@ package rtcp
 //@   fresh
 //@   ensures[C10] one: len(result) == 1 && result[0] == t.MediaSSRC
 
-//@ func (t *TransportLayerCC) packetLen() (result uint16)
+//@ func (t *TransportLayerCC) packetLen() (result int)
 //@   safety[C09,C17]
-//@   mathint
 //@   requires[C09] nonnil: forall k :: 0 <= k && k < len(t.RecvDeltas) ==> t.RecvDeltas[k] != nil
-//@   ensures size: int(result) == (20 + 2*len(t.PacketChunks) + specDeltasLen(t.RecvDeltas, len(t.RecvDeltas))) % 65536
+//@   ensures size: result == 20 + 2*len(t.PacketChunks) + specDeltasLen(t.RecvDeltas, len(t.RecvDeltas))
 //@   ensures nonneg: specDeltasLen(t.RecvDeltas, len(t.RecvDeltas)) >= 0
+//@   ensures upper: specDeltasLen(t.RecvDeltas, len(t.RecvDeltas)) <= 2*len(t.RecvDeltas)
 //@   loop 1
-//@     invariant 0 <= iter() && iter() <= len(t.RecvDeltas) && int(n) == (20 + 2*len(t.PacketChunks) + specDeltasLen(t.RecvDeltas, iter())) % 65536 && specDeltasLen(t.RecvDeltas, iter()) >= 0
+//@     invariant 0 <= iter() && iter() <= len(t.RecvDeltas) && n == 20 + 2*len(t.PacketChunks) + specDeltasLen(t.RecvDeltas, iter()) && specDeltasLen(t.RecvDeltas, iter()) >= 0 && specDeltasLen(t.RecvDeltas, iter()) <= 2*iter()
 //@     decreases len(t.RecvDeltas) - iter()
 
 //@ func (t *TransportLayerCC) MarshalSize() (result int)
 //@   safety[C09,C17]
 //@   requires[C09] nonnil: forall k :: 0 <= k && k < len(t.RecvDeltas) ==> t.RecvDeltas[k] != nil
-//@   ensures size: 20 + 2*len(t.PacketChunks) + specDeltasLen(t.RecvDeltas, len(t.RecvDeltas)) <= 65532 ==> result == 20 + 2*len(t.PacketChunks) + specDeltasLen(t.RecvDeltas, len(t.RecvDeltas)) + specPad4(20 + 2*len(t.PacketChunks) + specDeltasLen(t.RecvDeltas, len(t.RecvDeltas)))
-//@   ensures aligned: result%4 == 0 && result >= 0 && result <= 65536
+//@   ensures size: result == 20 + 2*len(t.PacketChunks) + specDeltasLen(t.RecvDeltas, len(t.RecvDeltas)) + specPad4(20 + 2*len(t.PacketChunks) + specDeltasLen(t.RecvDeltas, len(t.RecvDeltas)))
+//@   ensures aligned: result%4 == 0 && result >= 20
 //@   ensures nonneg: specDeltasLen(t.RecvDeltas, len(t.RecvDeltas)) >= 0
+//@   ensures upper: specDeltasLen(t.RecvDeltas, len(t.RecvDeltas)) <= 2*len(t.RecvDeltas)
 
 //@ func (t *TransportLayerCC) Len() (result uint16)
 //@   safety[C09,C17]
@@ -1342,7 +1343,6 @@ package rtcp
 //@   fresh
 //@   requires[C09] nonnil: forall k :: 0 <= k && k < len(t.RecvDeltas) ==> t.RecvDeltas[k] != nil
 //@   requires[C09] chunks: forall k :: 0 <= k && k < len(t.PacketChunks) ==> isType(t.PacketChunks[k], (*RunLengthChunk)(nil)) || (isType(t.PacketChunks[k], (*StatusVectorChunk)(nil)) && len(dyn(t.PacketChunks[k], (*StatusVectorChunk)(nil)).SymbolList) <= 14)
-//@   requires[C09] bounded: 20 + 2*len(t.PacketChunks) + specDeltasLen(t.RecvDeltas, len(t.RecvDeltas)) <= 65532
 //@   ensures[C08] hdr: err == nil ==> t.Header.Count <= 31
 //@   ensures[C08] deltas: forall k :: err == nil && 0 <= k && k < len(t.RecvDeltas) ==> (t.RecvDeltas[k].Type == 1 && 0 <= t.RecvDeltas[k].Delta/250 && t.RecvDeltas[k].Delta/250 <= 255) || (t.RecvDeltas[k].Type == 2 && -32768 <= t.RecvDeltas[k].Delta/250 && t.RecvDeltas[k].Delta/250 <= 32767)
 //@   ensures[C08] nobytes: err != nil ==> len(result) == 0
